@@ -49,6 +49,10 @@ impl Ctx {
     pub fn new(mode: Mode) -> Ctx {
         Ctx { mode, obls: Vec::new(), assumes: Vec::new(), fp_bound: None, diff_mode: DiffMode::Generic, values: Vec::new() }
     }
+    /// differentiate activation atoms in the closed form the library uses (C07 proves the forms equal)
+    pub fn aligned_diff(&mut self, on: bool) {
+        self.diff_mode = if on { DiffMode::Aligned } else { DiffMode::Generic };
+    }
     pub fn symbolic(&self) -> bool {
         self.mode == Mode::Symbolic
     }
